@@ -9,7 +9,7 @@ from ..core import Part, Violation, guard
 
 RULE = ("Hypothesis-generated training lists (structured passwords: words in several capitalisations, multi-words, digits, years, "
         "keyboard walks, context strings, symbols, spaces, Cyrillic/Greek/Latin-1 letters, non-BMP symbols, duplicates) x coverage "
-        "in (0,1] x n-gram 2-5 x alphabet size x encoding in {utf-8, ascii, latin-1, cp1251, cp1252} (repertoire restricted to "
+        "in (0,1] x n-gram 2-5 x alphabet size x encoding in {utf-8, ascii, latin-1, cp1251, cp1252, cp1250, iso-8859-2, iso-8859-15, koi8-r, and alias spellings} (repertoire restricted to "
         "the encoding): the real trainer writes a ruleset, the real guesser loads it (skip_brute when a Markov structure exists) "
         "and the real queue is drained with every pre-terminal expanded. Oracle: every training password whose recorded "
         "segmentation has no e-mail/website segment is among the emitted guesses, byte for byte; sum of probability x number of "
@@ -21,7 +21,7 @@ ASSUMPTIONS = ["letter domain of the property: alphabetic characters whose upper
                "a run in which the trainer does not complete is skipped and counted"]
 
 _DIR = None
-ENCODINGS = ['utf-8', 'utf-8', 'utf-8', 'ascii', 'latin-1', 'cp1251', 'cp1252']
+ENCODINGS = ['utf-8', 'utf-8', 'utf-8', 'ascii', 'latin-1', 'cp1251', 'cp1252', 'iso-8859-15', 'iso-8859-2', 'koi8-r', 'cp1250', 'ISO-8859-1', 'UTF8']
 
 
 def _dir():
@@ -156,6 +156,12 @@ def cases(draw):
         base.append(['Пароль12', 3])
     if enc in ('utf-8', 'latin-1', 'cp1252') and draw(st.booleans()):
         base.append(['Mañana#1', 2])
+    if enc in ('iso-8859-15',):
+        base += [['100\u20ac', 2], ['c\u0153ur1', 2], ['\u0160koda12', 1]]      # code points whose byte differs from Latin-1
+    if enc in ('iso-8859-2', 'cp1250'):
+        base += [['\u017e\u00e1ba12', 2], ['\u0141\u00f3d\u017a!', 1]]
+    if enc in ('koi8-r',):
+        base += [['\u043f\u0430\u0440\u043e\u043b\u044c1', 2]]
     entries += [e for e in base if e[0] not in seen]
     return {'entries': entries, 'encoding': enc, 'coverage': draw(st.sampled_from([0.6, 0.3, 0.9, 1, 0.01])),
             'ngram': draw(st.sampled_from([2, 3, 4, 5])), 'alphabet_size': draw(st.sampled_from([100, 30, 10]))}
